@@ -20,6 +20,38 @@ type c19Comp struct {
 	// unknown escape); Binary adds VALUE=BINARY to the property.
 	RawUID bool `json:"raw_uid,omitempty"`
 	Binary bool `json:"binary,omitempty"`
+	// Spelled: UID is a raw property value that IS valid TEXT (RFC 5545
+	// 3.3.11); the UID it denotes is its unescaped form. Two spellings of one
+	// value ("\n" and "\N" both stand for a line break) are the same UID.
+	Spelled bool `json:"spelled,omitempty"`
+}
+
+// c19Unescape is the TEXT unescaping of RFC 5545 3.3.11 for values that use
+// the four defined escapes only.
+func c19Unescape(raw string) string {
+	var sb strings.Builder
+	for i := 0; i < len(raw); i++ {
+		if raw[i] == '\\' && i+1 < len(raw) {
+			i++
+			switch raw[i] {
+			case 'n', 'N':
+				sb.WriteByte('\n')
+			default:
+				sb.WriteByte(raw[i])
+			}
+			continue
+		}
+		sb.WriteByte(raw[i])
+	}
+	return sb.String()
+}
+
+// uidOf is the UID a component denotes ("" = none).
+func (c c19Comp) uidOf() string {
+	if c.Spelled {
+		return c19Unescape(c.UID)
+	}
+	return c.UID
 }
 
 type c19Case struct {
@@ -71,9 +103,9 @@ func c19Model(cs c19Case) (accept bool, typ, uid string, open bool) {
 			types[c.Type] = true
 			typ = c.Type
 		}
-		if c.UID != "" {
-			uids[c.UID] = true
-			uid = c.UID
+		if u := c.uidOf(); u != "" {
+			uids[u] = true
+			uid = u
 		}
 	}
 	if len(types) > 1 || len(uids) > 1 {
@@ -100,6 +132,7 @@ func c19Build(cs c19Case) (*ical.Calendar, error) {
 		for _, c := range cs.Comps {
 			sb.WriteString("BEGIN:" + c.Type + "\r\n")
 			if c.UID != "" || c.RawUID {
+				// (a Spelled UID is written as it is spelled, like a raw one)
 				if c.Binary {
 					sb.WriteString("UID;VALUE=BINARY:" + c.UID + "\r\n")
 				} else {
@@ -144,7 +177,7 @@ func c19Build(cs c19Case) (*ical.Calendar, error) {
 	for _, c := range cs.Comps {
 		comp := ical.NewComponent(c.Type)
 		switch {
-		case c.RawUID || c.Binary:
+		case c.RawUID || c.Binary || c.Spelled:
 			up := ical.NewProp(ical.PropUID)
 			up.Value = c.UID
 			if c.Binary {
@@ -197,8 +230,8 @@ func c19Class(cs c19Case) string {
 		if c.Type != "VTIMEZONE" {
 			types[c.Type] = true
 		}
-		if c.UID != "" {
-			uids[c.UID] = true
+		if u := c.uidOf(); u != "" {
+			uids[u] = true
 		}
 	}
 	cap2 := func(n int) int {
@@ -535,6 +568,27 @@ func c19Run(c *fw.Ctx) {
 			}
 			idx++
 		}
+	}
+	// One UID, several spellings: "\n" and "\N" both stand for a line break,
+	// so values that differ only there are the same UID (accept, and return
+	// the unescaped value); a line break and a literal backslash followed by
+	// n are different UIDs (reject).
+	spellA, spellB, other := "room\\n1@example.com", "room\\N1@example.com", "room\\\\n1@example.com"
+	mk := func(t, u string) c19Comp { return c19Comp{Type: t, UID: u, Spelled: true} }
+	spelledLayouts := [][]c19Comp{
+		{mk("VEVENT", spellA), mk("VEVENT", spellB)}, {mk("VEVENT", spellB), mk("VEVENT", spellA)}, {mk("VEVENT", spellA), mk("VEVENT", spellA)},
+		{mk("VEVENT", spellA), mk("VEVENT", spellB), mk("VEVENT", spellA)}, {{Type: "VTIMEZONE"}, mk("VTODO", spellB), mk("VTODO", spellA)},
+		{mk("VTODO", spellA), {Type: "VTODO"}, mk("VTODO", spellB)}, {mk("VJOURNAL", spellB)}, {mk("VEVENT", "a\\nb\\Nc"), mk("VEVENT", "a\\Nb\\nc")},
+		{mk("VEVENT", spellA), mk("VEVENT", other)}, {mk("VEVENT", other), mk("VEVENT", spellB)}, {mk("VEVENT", other), mk("VEVENT", other)},
+		{mk("VEVENT", "semi\\;colon"), mk("VEVENT", "semi\\;colon")}, {mk("VEVENT", "back\\\\slash"), mk("VEVENT", "back\\\\slash")},
+	}
+	for _, l := range spelledLayouts {
+		if c.Mine(idx) {
+			c19Exec(c, c19Case{Comps: l})
+			c19Exec(c, c19Case{Comps: l, ViaText: true})
+			c.Observe("universe", "one-uid-several-spellings", 2)
+		}
+		idx++
 	}
 	// The verdict is a function of the calendar as it is NOW: validate, edit
 	// the same object in place (same number of components), validate again.
